@@ -1096,10 +1096,14 @@ class _G:
         if src is None:
             return None
         x, k = src
+        # value-producing functions with a NUMERIC result only on numeric sources: an EMPTY partition keeps the dtype of
+        # its input (the known meta-not-enforced mechanism), which for a str input breaks every later arithmetic step
         forms = {"float": ["fmt", "fmt", "slen", "inc", "dict", "series", "series"],
-                 "str": ["fmt", "fmt", "slen", "dict", "series"]}[k]
+                 "str": ["fmt", "fmt", "dict", "series"]}[k]
         if want == "float":
             forms = [f for f in forms if f in ("slen", "inc") or (k == "float" and f in ("dict", "series"))]
+        if not forms:
+            return None
         form = self.pick(forms)
         na = self.pick([None, "ignore", "ignore"])
         self.uses_meta = True
@@ -1453,7 +1457,7 @@ class _G:
         if not miss:
             return None
         fn = self.pick(["f_fmt", "f_fmt", "f_slen", "f_inc"])
-        extra_kinds = ("int", "float") if fn == "f_inc" else ("int", "float", "bool", "str")
+        extra_kinds = ("int", "float", "bool", "str") if fn == "f_fmt" else ("int", "float")
         sel = [self.pick(miss)]
         extra = [c for c in self.by_kind(self.cols, *extra_kinds) if c not in sel]
         sel += r.sample(extra, r.randint(0, min(2, len(extra))))
